@@ -506,9 +506,19 @@ def mux_family(rng, apply):
     if X not in ins and rng.random() < 0.7:
         ins[rng.randrange(len(ins))] = X
     ins = list(dict.fromkeys(ins))
+    directed = rng.random() < 0.3 and bool(rail_of.get(P)) and len(pool) >= 3
+    if directed:
+        # the shape the de-duplication of inputs is for: P listed by its RAIL, its direct child X by name, at least one more input after
+        # them - and the first edit removes X and keeps its children
+        others = [q for q in pool if q not in (P, X)]
+        pair = [P, X] if rng.random() < 0.6 else [X, P]
+        ins = pair + rng.sample(others, rng.randint(1, min(2, len(others))))
     m = names.pop()
     mr = rails.pop() if (rails and rng.random() < 0.3) else ""
-    mux_op = {"op": "add_comp", "parent": [addr(i) for i in ins], "comp": comp("pmux", m), "group": "", "rail": mr}
+    plist = [addr(i) for i in ins]
+    if directed:
+        plist = [(rail_of[P] if i == P else (i if i == X else addr(i))) for i in ins]
+    mux_op = {"op": "add_comp", "parent": plist, "comp": comp("pmux", m), "group": "", "rail": mr}
     if rng.random() < 0.25:
         mux_op["parent_form"] = "tuple"         # rejected today (parent: str | list); if a version accepts it, everything after must still hold
     s = apply(mux_op)
@@ -517,6 +527,7 @@ def mux_family(rng, apply):
     rail_of[m] = mr
     add(addr(m), rng.choice(list(H.LOADS)))
     # edits aimed at the inputs and their ancestors
+    first_edit = True
     for _ in range(rng.randint(1, 3)):
         cur = live(s)
         targets = [t for t in ins + [P] if t in cur and t != root]
@@ -524,7 +535,11 @@ def mux_family(rng, apply):
             break
         t = rng.choice(targets)
         r = rng.random()
-        if r < 0.45:
+        forced = directed and first_edit and X in cur
+        first_edit = False
+        if forced:
+            op = {"op": "del_comp", "name": X, "del_childs": False}
+        elif r < 0.45:
             op = {"op": "del_comp", "name": t, "del_childs": rng.random() < 0.3}
         elif r < 0.8:
             newname = t if rng.random() < 0.4 else (names.pop() if names else t)
